@@ -164,9 +164,29 @@ ParamOK(tab, p) ==
 
 NoDuplicates(ps) == \A i, j \in DOMAIN ps : i # j => Canon(ps[i].name) # Canon(ps[j].name)
 
+\* ------------------------------------------------------------------------
+\* Into has a grammar of its own: Into(Type [, parameters]).  m.ty is what
+\* stands in the type slot: "req" (a target requested on the type), "other" /
+\* "path2" (well-formed types that are not requested), or something that is
+\* not a type ("int", "str_ident", "star", "none" = nothing at all).
+\* Type level: any well-formed type (+ bound); the neutral base has a sole
+\* field, so every target finds its field.  Field level: only requested
+\* targets (+ method).  Variant level: refused.
+\* ------------------------------------------------------------------------
+IntoTypeOK(ty) == ty \in {"req", "other", "path2"}
+IntoParams(ctx) == IF ctx.pos = "type" THEN ("bound" :> "bound") ELSE ("method" :> "path")
+IntoVerdict(ctx, m) ==
+  IF ctx.kind = "union" \/ ctx.pos = "variant" THEN "err"
+  ELSE IF m.form # "list" \/ m.uns # "no" THEN "err"
+  ELSE IF ~IntoTypeOK(m.ty) THEN "err"
+  ELSE IF ctx.pos = "field" /\ m.ty # "req" THEN "err"                  \* no such Into impl requested
+  ELSE LET tab == [params |-> IntoParams(ctx)] IN
+    IF (\A i \in DOMAIN m.params : ParamOK(tab, m.params[i])) /\ NoDuplicates(m.params) THEN "ok" ELSE "err"
+
 Verdict(ctx, m) ==
   IF m.t \notin AllTraits THEN "err"                                   \* unsupported trait
   ELSE IF ctx.pos # "type" /\ m.t \notin ctx.educed THEN "err"         \* trait not used
+  ELSE IF m.t = "Into" THEN IntoVerdict(ctx, m)
   ELSE LET tab == Table(ctx, m.t) IN
     CASE m.form = "path" -> IF tab.path THEN "ok" ELSE "err"
       [] m.form = "nv" -> IF tab.nv # "" /\ Acc(tab.nv, "nv", m.val) THEN "ok" ELSE "err"
@@ -185,7 +205,7 @@ Verdict(ctx, m) ==
 ScanInit == [i |-> 1, set |-> {}, verdict |-> "scanning"]
 
 ScanStep(ctx, m, st) ==
-  LET tab == Table(ctx, m.t) IN
+  LET tab == IF m.t = "Into" THEN [params |-> IntoParams(ctx)] ELSE Table(ctx, m.t) IN
     IF st.i > Len(m.params) THEN [st EXCEPT !.verdict = "ok"]
     ELSE LET p == m.params[st.i] IN
       IF Canon(p.name) \notin DOMAIN tab.params THEN [st EXCEPT !.verdict = "err"]          \* handler returns false
